@@ -4,6 +4,7 @@ import TabulaModel.Model.LayoutOrder
 import TabulaModel.Model.LayoutText
 import TabulaModel.Model.LayoutApi
 import TabulaModel.Model.LayoutGaps
+import TabulaModel.Model.LayoutElem
 /-!
 Line protocol of C09 (see harness/c09/c09.go).
 
@@ -302,6 +303,44 @@ def handle5 (op : String) (args : List String) : String :=
   | _, _ => "bad-op"
 
 
+/-- `ids@x,y,w,h@fs@isH@ty` (ids joined by `.`) -/
+def parsePPar (s : String) : Option PPar :=
+  match s.splitOn "@" with
+  | [ids, b, fs, isH, ty] => do
+    let ids ← (ids.splitOn ".").mapM (·.toNat?)
+    pure { ids := ids, box := ← parseBox b, fs := ← parseRat fs, isH := isH == "1", ty := ← ty.toNat? }
+  | _ => none
+
+/-- `ids@x,y,w,h` -/
+def parseRoPar (s : String) : Option Elem :=
+  match s.splitOn "@" with
+  | [ids, b] => do
+    let ids ← (ids.splitOn ".").mapM (·.toNat?)
+    pure { box := ← parseBox b, ids := ids }
+  | _ => none
+
+def elemStr (kind : String) (e : Elem) : String :=
+  kind ++ ":" ++ ".".intercalate ((sortNat e.ids).map toString) ++ ":" ++
+    ratStr e.box.x ++ "," ++ ratStr e.box.y ++ "," ++ ratStr e.box.w ++ "," ++ ratStr e.box.h
+
+/-- the analysis elements: `c09.elems PAGEPARS ROPARS` (lists joined by `;`, `-` = none) -/
+def handle6 (op : String) (args : List String) : String :=
+  match op, args with
+  | "c09.elems", [pp, rp] =>
+    match (if pp == "-" then some [] else (pp.splitOn ";").mapM parsePPar),
+          (if rp == "-" then some [] else (rp.splitOn ";").mapM parseRoPar) with
+    | some ps, some ro =>
+      let hs := headingElems ps
+      let ls := listElems 2 2 ps
+      let tree := pageElements ps ro
+      let kept := tree.drop (hs.length + ls.length)
+      let strs := hs.map (elemStr "H") ++ ls.map (elemStr "L") ++ kept.map (elemStr "P")
+      let sorted := strs.mergeSort (fun a b => !decide (b < a))
+      if sorted.isEmpty then "-" else "|".intercalate sorted
+    | _, _ => "bad-op"
+  | _, _ => "bad-op"
+
+
 def handle (op : String) (args : List String) : String :=
   match op, args with
   | "c09.dedupe", [f] => match parseFrags f with
@@ -366,7 +405,9 @@ def handle (op : String) (args : List String) : String :=
   | _, _ => match handle2 op args with
     | "bad-op" => match handle3 op args with
       | "bad-op" => match handle4 op args with
-        | "bad-op" => handle5 op args
+        | "bad-op" => match handle5 op args with
+          | "bad-op" => handle6 op args
+          | r => r
         | r => r
       | r => r
     | r => r
